@@ -153,8 +153,16 @@ func TestC09E2(t *testing.T) {
 			if clientSends {
 				side = "client"
 			}
+			bound := bound
+			maxExec := 20000
+			if len(sc.ops) >= 3 && !env.Thorough() {
+				bound = 1 // three concurrent operations: 2 preemptions do not finish within the quick budget
+			}
+			if env.Thorough() {
+				maxExec = 400000
+			}
 			cases = append(cases, run.Case{ID: fmt.Sprintf("e2/%s/%s/b%d", sc.name, side, bound), Run: func(t *testing.T) run.Outcome {
-				res := Explore(bound, 20000, c09Scenario(t, p, sc, clientSends, env.Seed+1))
+				res := Explore(bound, maxExec, c09Scenario(t, p, sc, clientSends, env.Seed+1))
 				o := run.Outcome{Incomplete: res.Capped, NonTrivial: res.Executions > 1, Evals: res.Executions, Distinct: len(res.Outcomes),
 					Class: fmt.Sprintf("schedules=%s outcomes=%d capped=%v", bucket(res.Executions), len(res.Outcomes), res.Capped),
 					Counters: map[string]int{"e2_executions": res.Executions, "e2_max_sched_points": res.MaxSteps, "e2_distinct_emission_orders": len(res.Outcomes)},
